@@ -16,7 +16,8 @@ Systematic == {"apply-size@2", "apply-size@1of2", "apply-arity-fewer", "apply-re
                "ret-size-struct", "ret-size-ptr", "when-arg-size-struct",
                "empty-method-name", "empty-method-name-apply", "empty-uemethod-name", "empty-uefunc-name", "iface-empty-method-name",
                "iface-return-before-as", "iface-returns-before-as", "iface-when-before-as", "method-when-few", "nil-func-target",
-               "var-apply-non-func", "var-apply-two-results"}
+               "var-apply-non-func", "var-apply-two-results",
+               "when-few-chained-variadic", "when-few-chained-fixed", "when-few-chained-variadic-method", "matches-few-variadic"}
 TypedCause == {"when-few", "ret-few", "iface-not-interface", "iface-first-param", "iface-arity"}
 Known == {"non-function", "when-few", "ret-few", "ret-size", "unknown-method", "unknown-symbol", "unknown-symbol-as",
           "iface-non-pointer", "iface-not-interface", "iface-first-param", "iface-arity", "iface-unknown-method",
